@@ -36,9 +36,19 @@ def axis_routing(ctx: Ctx) -> None:
         joins = [c for c in walk_local(f.node) if isinstance(c, ast.Call) and call_name(c) in ('Frame.from_concat', 'concat_resolved', 'np.concatenate', 'Series.from_concat')]
         levels = [c for c in walk_local(f.node) if isinstance(c, ast.Call) and isinstance(c.func, ast.Attribute) and c.func.attr == 'relabel_level_add']
         ids = {id(x) for x in mask_stores + joins + levels}
-        se = SymEnv(f.node, watch=lambda x: _is_component_site(x) or id(x) in ids, max_worlds=1024,
-                    keep_fact=lambda t: t in ('self._axis == 0', 'self._axis == 1') or t.startswith('self._retain_labels') or 'isinstance(' in t).run()
+        se = SymEnv(f.node, watch=lambda x: _is_component_site(x) or id(x) in ids, max_worlds=8192,
+                    keep_fact=lambda t: t in ('self._axis == 0', 'self._axis == 1', 'row_key is None', 'column_key is None', 'row_key is not None', 'column_key is not None') or t.startswith('self._retain_labels') or 'isinstance(' in t).run()
         row_k, col_k = 'NULL_SLICE if row_key is None else row_key', 'NULL_SLICE if column_key is None else column_key'
+
+        def is_key(txt: str, name: str, facts: tp.Mapping[str, bool]) -> bool:
+            '''the caller's key, defaulted to the null slice when None — as one conditional expression, or as the value it has on this path when the default was
+            applied by an if statement'''
+            if txt == f'NULL_SLICE if {name} is None else {name}':
+                return True
+            isn = facts.get(f'{name} is None')
+            if isn is None and facts.get(f'{name} is not None') is not None:
+                isn = not facts[f'{name} is not None']
+            return (isn is True and txt == 'NULL_SLICE') or (isn is False and txt == name)
         for node, worlds in se.all_sites():
             for w in sorted(worlds):
                 facts = se.facts(w)
@@ -54,9 +64,9 @@ def axis_routing(ctx: Ctx) -> None:
                     comp_first = '_loc_to_iloc(HLoc[' in t0
                     comp_second = '_loc_to_iloc(HLoc[' in t1
                     if ax0:
-                        good = comp_first and not comp_second and t1 == col_k
+                        good = comp_first and not comp_second and is_key(t1, 'column_key', facts)
                     else:
-                        good = comp_second and not comp_first and t0 == row_k
+                        good = comp_second and not comp_first and is_key(t0, 'row_key', facts)
                     key = f'Quilt.{m}:component@axis{0 if ax0 else 1}'
                     (ctx.ok if good else ctx.bad)(R, f, node, 'mask slice on the Quilt axis, the caller\'s other key on the opposite axis' if good else
                                                   f'for axis {0 if ax0 else 1} a Frame is cut with `({t0[:50]}, {t1[:50]})`: the selection mask / opposite key are on the wrong axes', key=key)
@@ -65,7 +75,7 @@ def axis_routing(ctx: Ctx) -> None:
                         continue
                     n += 1
                     k = se.text(node.targets[0].slice, w)
-                    good = k == (row_k if ax0 else col_k)
+                    good = is_key(k, 'row_key' if ax0 else 'column_key', facts)
                     (ctx.ok if good else ctx.bad)(R, f, node, f'mask set from the {"row" if ax0 else "column"} key' if good else
                                                   f'for axis {0 if ax0 else 1} the axis-map mask is set from `{k[:50]}`', key=f'Quilt.{m}:mask@axis{0 if ax0 else 1}')
                 elif any(node is x for x in joins):
